@@ -65,6 +65,12 @@ fn parse_array_constraint(
 fn parse_composite_constraint(
     ctx: &mut ParsingContext<'_>,
 ) -> ParseResult<WithTokenSpan<SubtypeConstraint>> {
+    ctx.nested(_parse_composite_constraint)
+}
+
+fn _parse_composite_constraint(
+    ctx: &mut ParsingContext<'_>,
+) -> ParseResult<WithTokenSpan<SubtypeConstraint>> {
     // There is no finite lookahead that can differentiate
     // between array and record element constraint
     let leftpar = ctx.stream.expect_kind(LeftPar)?;
@@ -160,6 +166,12 @@ pub fn parse_resolution_indication(
 }
 
 pub fn parse_parenthesized_element_resolution(
+    ctx: &mut ParsingContext<'_>,
+) -> ParseResult<ResolutionIndication> {
+    ctx.nested(_parse_parenthesized_element_resolution)
+}
+
+fn _parse_parenthesized_element_resolution(
     ctx: &mut ParsingContext<'_>,
 ) -> ParseResult<ResolutionIndication> {
     let start_token = ctx.stream.expect_kind(LeftPar)?;
